@@ -74,6 +74,11 @@ func genC09(r *prng) *plan {
 		// offerers with different version sets against a node that speaks both
 		p.Cfg["mixed"], p.Cfg["vv"] = 1, 2
 	}
+	if r.chance(35) {
+		// the offer path of the node runs under the statement-level yield scheduler: handlers of offers that
+		// arrive together interleave wherever they hold no lock
+		p.Cfg["ysched"] = int64(1 + r.intn(1<<30))
+	}
 	return p
 }
 
@@ -128,6 +133,13 @@ func runC09(seed uint64) {
 	V := w.newBase(nodeCfg{name: "V", port: 9001, key: detKey(seed, 1), versions: vv, maxUtp: limit, capacityMB: 100, queueCap: int(p.cfg("qcap")),
 		wrapStore: func(s storage.ContentStorage) storage.ContentStorage { deco.inner = s; return deco }})
 	vp := V.newPlainProto(portalwire.History)
+	if ys := p.cfg("ysched"); ys != 0 {
+		w.ys, w.ysRng = newYsched(mutexesOf(vp.p)), newPrng(uint64(ys))
+		portalwire.VerifProtoYieldHook = w.ys.yield
+		w.ys.wake = w.net.wake
+		w.ys.on = true
+		w.probe("offer_path_yield_scheduled")
+	}
 	np := int(p.cfg("np"))
 	if np < 1 {
 		np = 1
